@@ -49,6 +49,30 @@ def run(F, rep, tier):
     if rep.check(len(ctl) == 1, "C09-R1", "control:anchor", "positive control read_mech_source_file not found"):
         r2 = cgm.reach(ctl)
         rep.check(any(IMPURE.search(f) for f in r2), "C09-R1", "control:detector-fires", "the purity detector does not report the file loader as impure: the rule is broken")
+    # ---- R6 determinism: no iteration-order-dependent use of a std hash collection on the parse path (RandomState differs per instance)
+    rep.rule("C09-R6", "determinism: nothing reachable from parse() iterates a std HashMap/HashSet (per-instance random order would order the report or tree differently for the same text)")
+    HASH_ITER = re.compile(r"collections::hash::(set|map)::.*(::|>::)(into_iter|iter|iter_mut|drain|keys|values|values_mut|into_keys|into_values|retain|difference|union|intersection|symmetric_difference|extract_if)$")
+
+    def hash_iters(b):
+        return [(t.get("l"), (t.get("f") or t.get("tf"))) for _, t in b.calls() if HASH_ITER.search((t.get("f") or "")) or HASH_ITER.search((t.get("tf") or ""))]
+    sites = []
+    for f in sorted(reach):
+        b = cg.bodies.get(f)
+        # the parser crate itself and the node/error helpers of mech_core it calls; trait-method fallbacks of the call graph reach unrelated
+        # mech_core impls (e.g. PartialEq of runtime tables), which the parser never touches
+        if b is None or not re.search(r"^<?(mech_syntax::|mech_core::(nodes|error|errors)::)", f):
+            continue
+        for l, callee in hash_iters(b):
+            sites.append((f, l, callee))
+    for f, l, callee in sites:
+        rep.bad("C09-R6", "hash-iteration:%s:%s" % (f.split("::<")[0], callee.split("::")[-1]),
+                "%s (reachable from parse()) iterates a std hash collection (`%s`, line %s): its order depends on a per-instance random seed, so the same text can yield differently ordered results" % (f, callee[-90:], l),
+                cg.bodies[f].where())
+    if not sites:
+        rep.ok("C09-R6", "no-hash-iteration-on-parse-path", sample={"bodies_scanned": len(reach)})
+    ctl6 = [b for b in F.bodies("mech_core.lib") if hash_iters(b)]
+    rep.check(len(ctl6) >= 1, "C09-R6", "control:detector-fires", "the hash-iteration detector finds no HashMap iteration anywhere in mech_core (there are several, e.g. MechTable::eq): the rule is broken",
+              sample={"control_sites": len(ctl6)})
     # ---- R2
     pb = cg.bodies[root]
     ok_exits, err_exits = result_exits(pb)
@@ -187,3 +211,86 @@ def run(F, rep, tier):
                     rep.note("unproven_loops", {"fn": it["name"], "loop": kind, "rebinds": rb})
                     rep.ok("C09-R5", key + ":unproven")
     rep.floor("C09-R5", "hand-written loops in the parser", n_loops, 10)
+    run_r7(F, rep)
+
+
+def run_r7(F, rep):
+    """C09-R7: `_ => unreachable!()/panic!()` arms on the result of a sub-parser must be unreachable: every node variant the sub-parser can
+    return has its own arm.  VAR(P) is computed over the parser call graph (variants constructed in P plus those of the parsers it forwards)."""
+    from lib.facts import find, walk, is_node, path_of, render, render_pat, last_seg
+    rep.rule("C09-R7", "a catch-all arm that panics, on the result of a sub-parser, is dead: the sub-parser can return no variant outside the arms' patterns (variant sets over the parser call graph)")
+    items = [it for it in F.syn("mech_syntax.lib") if it["k"] == "fn" and "formatter" not in it["mod"] and it.get("body")]
+    fns = {}
+    for it in items:
+        fns.setdefault(it["name"], it)
+    ret_enum = {}
+    for n, it in fns.items():
+        m = re.match(r"ParseResult<(\w+)>$", (it["sig"].get("ret") or "").replace(" ", ""))
+        if m:
+            ret_enum[n] = m.group(1)
+    # variants constructed / parsers referenced
+    cons, refs = {}, {}
+    for n, it in fns.items():
+        e = ret_enum.get(n)
+        if not e:
+            continue
+        cv = set()
+        pat_nodes = set()
+        for mm in find(it["body"], "match"):
+            for a in mm[2]:
+                for x in walk(a[0]):
+                    pat_nodes.add(id(x))
+        for x in walk(it["body"]):
+            if x[0] == "path" and id(x) not in pat_nodes:
+                m = re.match(r"^%s::(\w+)$" % e, x[1])
+                if m:
+                    cv.add(m.group(1))
+        cons[n] = cv
+        refs[n] = {x[1] for x in walk(it["body"]) if x[0] == "path" and x[1] in ret_enum and ret_enum[x[1]] == e and x[1] != n}
+    var = {n: set(v) for n, v in cons.items()}
+    changed = True
+    while changed:
+        changed = False
+        for n in var:
+            for r in refs[n]:
+                if not var.get(r, set()) <= var[n]:
+                    var[n] |= var.get(r, set())
+                    changed = True
+    n_sites = 0
+    for n, it in sorted(fns.items()):
+        per = {}
+        for mm in find(it["body"], "match"):
+            arms = mm[2]
+            wild = [a for a in arms if render_pat(a[0]) == "_" and a[1] is None]
+            if not wild:
+                continue
+            wtxt = render(wild[0][2])
+            if not re.search(r"panicking::|unreachable|todo!|unimplemented!|panic!", wtxt):
+                continue
+            callee = [x[1] for x in walk(mm[1]) if x[0] == "path" and x[1] in ret_enum]
+            if not callee:
+                rep.note("panicking_wildcards_not_on_a_parser_result", "%s: match %s" % (n, render(mm[1])[:50]))
+                continue
+            q = callee[-1]
+            e = ret_enum[q]
+            handled = set()
+            covers_all = False
+            for a in arms:
+                ptxt = render_pat(a[0])
+                for m2 in re.finditer(r"\b%s::(\w+)" % e, ptxt):
+                    handled.add(m2.group(1))
+                if a[1] is None and ptxt != "_" and not re.search(r"\b%s::" % e, ptxt) and not ptxt.startswith("Err"):
+                    covers_all = True          # e.g. `Ok(x) => x`: binds whatever the sub-parser returned
+            if covers_all:
+                rep.ok("C09-R7", "%s:match-%s:binds-all" % (n, q))
+                n_sites += 1
+                continue
+            n_sites += 1
+            per[q] = per.get(q, 0) + 1
+            key = "%s:match-%s%s" % (n, q, ("#%d" % per[q]) if per[q] > 1 else "")
+            missing = sorted(var.get(q, set()) - handled)
+            rep.check(not missing, "C09-R7", key if not missing else key + ":" + ",".join(missing),
+                      "%s(): `match %s` handles %s::{%s} and panics (`%s`) otherwise, but %s() can return %s::%s: that input panics the parser instead of producing an error report" % (
+                          n, render(mm[1])[:40], e, ",".join(sorted(handled)), wtxt[:40], q, e, "/".join(missing)),
+                      "%s (mech_syntax.lib, expanded line %s)" % (n, wild[0][3]), sample={"fn": n, "sub_parser": q, "can_return": sorted(var.get(q, ())), "handled": sorted(handled)})
+    rep.floor("C09-R7", "panicking catch-all arms on sub-parser results", n_sites, 4)
